@@ -623,6 +623,54 @@ fn exhaustive_sequences<T: Elem>(cx: &mut Ctx, label: &str, elems: &[T], keys: &
 }
 
 // ------------------------------------------------------------------------------------------------
+// own JSON through the remaining serialisation forms and deserialisation entry points
+// ------------------------------------------------------------------------------------------------
+
+/// The compact string form (`to_json` -> `from_json`) is judged by the caller, `val` is that (already accepted) form parsed by
+/// the harness. Here the same value goes through `to_json_value` -> `from_json_value`, `to_json_vec` -> `from_json_slice`,
+/// `to_json_pretty` -> `from_json` and the compact form through an `io::Read` deserializer: every form must denote the same JSON
+/// and every entry point must give back an equal value. Returns the first failing (path, what happened).
+fn own_json_other_paths<C>(v: &C, val: &Value) -> Result<(), (&'static str, String)>
+where
+  C: Serialize + DeserializeOwned + PartialEq,
+{
+  fn back<C: PartialEq>(v: &C, r: Result<C, String>) -> Result<(), String> {
+    match r {
+      Ok(b) if &b == v => Ok(()),
+      Ok(_) => Err("deserialises to a different value".into()),
+      Err(e) => Err(format!("is rejected: {}", e)),
+    }
+  }
+  let r = catch(|| -> Result<(), (&'static str, String)> {
+    // serde_json::Value
+    let jv = v.to_json_value().map_err(|e| ("value", format!("to_json_value failed: {}", e)))?;
+    if &jv != val {
+      return Err(("value", format!("to_json_value gives {} but to_json gives {}", jv, val)));
+    }
+    back(v, C::from_json_value(jv).map_err(|e| e.to_string())).map_err(|e| ("value", format!("own JSON value {} {}", val, e)))?;
+    // bytes
+    let bytes = v.to_json_vec().map_err(|e| ("slice", format!("to_json_vec failed: {}", e)))?;
+    if serde_json::from_slice::<Value>(&bytes).ok().as_ref() != Some(val) {
+      return Err(("slice", format!("to_json_vec gives {} but to_json gives {}", String::from_utf8_lossy(&bytes), val)));
+    }
+    back(v, C::from_json_slice(&bytes).map_err(|e| e.to_string())).map_err(|e| ("slice", format!("own JSON bytes {} {}", val, e)))?;
+    // io::Read
+    back(v, serde_json::from_reader::<_, C>(&bytes[..]).map_err(|e| e.to_string())).map_err(|e| ("reader", format!("own JSON {} read from a reader {}", val, e)))?;
+    // pretty-printed text
+    let pretty = v.to_json_pretty().map_err(|e| ("pretty", format!("to_json_pretty failed: {}", e)))?;
+    if serde_json::from_str::<Value>(&pretty).ok().as_ref() != Some(val) {
+      return Err(("pretty", format!("to_json_pretty gives {:?} but to_json gives {}", pretty, val)));
+    }
+    back(v, C::from_json(&pretty).map_err(|e| e.to_string())).map_err(|e| ("pretty", format!("own pretty-printed JSON {:?} {}", pretty, e)))?;
+    Ok(())
+  });
+  match r {
+    Ok(x) => x,
+    Err(p) => Err(("panic", format!("panicked: {} at {}", p.msg, p.loc()))),
+  }
+}
+
+// ------------------------------------------------------------------------------------------------
 // full observation of one OrderedSet state (accessors + JSON)
 // ------------------------------------------------------------------------------------------------
 
@@ -709,7 +757,18 @@ fn check_state<T: Elem>(cx: &mut Ctx, set: &OrderedSet<T>, model: &[T], keys: &[
         return false;
       }
       match catch(|| OrderedSet::<T>::from_json(&js).map(|b| (&b == set, b.as_slice().to_vec()))) {
-        Ok(Ok((true, v))) if v == model => cx.rep.inc("json_roundtrips"),
+        Ok(Ok((true, v))) if v == model => {
+          cx.rep.inc("json_roundtrips");
+          if let Err((path, what)) = own_json_other_paths(set, val.as_ref().unwrap_or(&Value::Null)) {
+            cx.rep.violation(
+              &format!("oset-json-roundtrip:{}", path),
+              &format!("[{}] set {}: {}", T::KIND, show_list(model), what),
+              json!({"kind":T::KIND,"state":show_list(model),"json":js,"path":path,"history":hist()}),
+            );
+            return false;
+          }
+          cx.rep.inc("json_other_path_roundtrips");
+        }
         Ok(other) => {
           cx.rep.violation(
             "oset-json-roundtrip",
@@ -1164,7 +1223,18 @@ fn check_oos<T: Elem>(cx: &mut Ctx, v: &OneOrSet<T>, model: &[T], keys: &[T::K],
         return false;
       }
       match catch(|| OneOrSet::<T>::from_json(&js).map(|b| (&b == v, b.as_slice().to_vec()))) {
-        Ok(Ok((true, c))) if c == model => cx.rep.inc("json_roundtrips"),
+        Ok(Ok((true, c))) if c == model => {
+          cx.rep.inc("json_roundtrips");
+          if let Err((path, what)) = own_json_other_paths(v, val.as_ref().unwrap_or(&Value::Null)) {
+            cx.rep.violation(
+              &format!("oneorset-json-roundtrip:{}", path),
+              &format!("[{}] OneOrSet {} ({}): {}", T::KIND, show_list(model), origin, what),
+              json!({"kind":T::KIND,"state":show_list(model),"json":js,"origin":origin,"path":path,"history":hist()}),
+            );
+            return false;
+          }
+          cx.rep.inc("json_other_path_roundtrips");
+        }
         Ok(other) => {
           cx.rep.violation(
             "oneorset-json-roundtrip",
@@ -1338,6 +1408,9 @@ impl MapSuite for u8 {
     oos_map::<u8, u8>(cx, src, model, "id", &|x| *x, &|x| *x == 2);
     oos_map::<u8, P>(cx, src, model, "P{k:x/2,v:x}", &|x| P { k: x / 2, v: *x }, &never);
     oos_map::<u8, String>(cx, src, model, "str(x%3)", &|x| (x % 3).to_string(), &|x| *x == 0);
+    oos_map::<u8, Tup>(cx, src, model, "Tup(x/2,x)", &|x| Tup(x / 2, *x), &never);
+    oos_map::<u8, Nul>(cx, src, model, "Nul(odd?x:null)", &|x| Nul(if x % 2 == 1 { Some(*x) } else { None }), &never);
+    oos_map::<u8, En>(cx, src, model, "En(x)", &|x| match x % 3 { 0 => En::A, 1 => En::B(*x), _ => En::C(*x, 0) }, &|x| *x == 4);
   }
 }
 impl MapSuite for P {
@@ -1348,6 +1421,33 @@ impl MapSuite for P {
     oos_map::<P, P>(cx, src, model, "swap", &|p| P { k: p.v, v: p.k }, &never);
     oos_map::<P, P>(cx, src, model, "P{k:0,v:p.k}", &|p| P { k: 0, v: p.k }, &never);
     oos_map::<P, String>(cx, src, model, "str(p.v)", &|p| p.v.to_string(), &never);
+  }
+}
+impl MapSuite for Tup {
+  fn map_suite(cx: &mut Ctx, src: &OneOrSet<Tup>, model: &[Tup]) {
+    let never = |_: &Tup| false;
+    oos_map::<Tup, u8>(cx, src, model, "t.1", &|t| t.1, &never);
+    oos_map::<Tup, Tup>(cx, src, model, "swap", &|t| Tup(t.1, t.0), &|t| t.0 == 3);
+    oos_map::<Tup, Tup>(cx, src, model, "Tup(0,t.0)", &|t| Tup(0, t.0), &never);
+    oos_map::<Tup, Nul>(cx, src, model, "Nul(t.1>0?t.0:null)", &|t| Nul(if t.1 > 0 { Some(t.0) } else { None }), &never);
+    oos_map::<Tup, P>(cx, src, model, "P{k:t.0,v:t.1}", &|t| P { k: t.0, v: t.1 }, &never);
+  }
+}
+impl MapSuite for Nul {
+  fn map_suite(cx: &mut Ctx, src: &OneOrSet<Nul>, model: &[Nul]) {
+    let never = |_: &Nul| false;
+    oos_map::<Nul, Nul>(cx, src, model, "null", &|_| Nul(None), &never);
+    oos_map::<Nul, Nul>(cx, src, model, "id", &|n| *n, &|n| n.0 == Some(1));
+    oos_map::<Nul, Tup>(cx, src, model, "Tup(n?1:0,n|0)", &|n| Tup(n.0.is_some() as u8, n.0.unwrap_or(0)), &never);
+    oos_map::<Nul, u8>(cx, src, model, "n|9", &|n| n.0.unwrap_or(9), &never);
+  }
+}
+impl MapSuite for En {
+  fn map_suite(cx: &mut Ctx, src: &OneOrSet<En>, model: &[En]) {
+    let never = |_: &En| false;
+    oos_map::<En, En>(cx, src, model, "A", &|_| En::A, &never);
+    oos_map::<En, Tup>(cx, src, model, "Tup(variant,payload)", &|e| match e { En::A => Tup(0, 0), En::B(x) => Tup(1, *x), En::C(x, _) => Tup(2, *x) }, &never);
+    oos_map::<En, Nul>(cx, src, model, "Nul(payload)", &|e| match e { En::A => Nul(None), En::B(x) => Nul(Some(*x)), En::C(_, y) => Nul(Some(*y)) }, &|e| *e == En::B(2));
   }
 }
 impl MapSuite for String {
@@ -1494,7 +1594,18 @@ fn check_oom<T: Elem>(cx: &mut Ctx, v: &OneOrMany<T>, model: &[T], ctor: bool, o
         return false;
       }
       match catch(|| OneOrMany::<T>::from_json(&js).map(|b| (&b == v, b.as_slice().to_vec()))) {
-        Ok(Ok((true, c))) if c == model => cx.rep.inc("json_roundtrips"),
+        Ok(Ok((true, c))) if c == model => {
+          cx.rep.inc("json_roundtrips");
+          if let Err((path, what)) = own_json_other_paths(v, val.as_ref().unwrap_or(&Value::Null)) {
+            cx.rep.violation(
+              &format!("oneormany-json-roundtrip:{}", path),
+              &format!("[{}] OneOrMany {} ({}): {}", T::KIND, show_list(model), origin, what),
+              json!({"kind":T::KIND,"state":show_list(model),"json":js,"origin":origin,"path":path,"history":hist()}),
+            );
+            return false;
+          }
+          cx.rep.inc("json_other_path_roundtrips");
+        }
         Ok(other) => {
           cx.rep.violation(
             "oneormany-json-roundtrip",
@@ -1727,11 +1838,146 @@ fn hostile_json<T: MapSuite>(cx: &mut Ctx, universe: &[T]) {
 
 // ------------------------------------------------------------------------------------------------
 
+// ------------------------------------------------------------------------------------------------
+// phase 8: items that borrow from the input (`&str` is KeyComparable out of the box): own JSON read zero-copy
+// ------------------------------------------------------------------------------------------------
+
+/// `own` is the collection's own JSON text; deserialising it with a borrowing deserializer must give an equal value.
+/// (Only escape-free strings are used: a `&str` can never be borrowed out of a JSON string holding an escape.)
+fn borrowed_back<'a, C>(cx: &mut Ctx, what: &str, origin: &str, v: &C, own: &'a str)
+where
+  C: Deserialize<'a> + PartialEq,
+{
+  cx.rep.inc("borrowed_checks");
+  match catch(|| serde_json::from_str::<C>(own).map(|b| &b == v)) {
+    Ok(Ok(true)) => cx.rep.inc("json_borrowed_roundtrips"),
+    Ok(Ok(false)) => cx.rep.violation(
+      &format!("{}-json-roundtrip:borrowed", what),
+      &format!("[&str] own JSON {} of a {} ({}) deserialises (borrowing) to a different value", own, what, origin),
+      json!({"kind":"&str","json":own,"origin":origin}),
+    ),
+    Ok(Err(e)) => cx.rep.violation(
+      &format!("{}-json-roundtrip:borrowed", what),
+      &format!("[&str] own JSON {} of a {} ({}) is rejected when the items borrow from the input: {}", own, what, origin, e),
+      json!({"kind":"&str","json":own,"origin":origin}),
+    ),
+    Err(p) => cx.rep.violation(&format!("{}-json-panic@{}", what, p.file_only()), &format!("from_str({}) panicked: {}", own, p.msg), json!({"json":own})),
+  }
+}
+
+fn own_text<C: Serialize>(cx: &mut Ctx, what: &str, v: &C, want: &[Value]) -> Option<String> {
+  match catch(|| v.to_json()) {
+    Ok(Ok(js)) => {
+      let val: Option<Value> = serde_json::from_str(&js).ok();
+      if want.iter().any(|w| Some(w) == val.as_ref()) {
+        Some(js)
+      } else {
+        cx.rep.violation(&format!("{}-json-form", what), &format!("[&str] {} serialises as {}; expected one of {:?}", what, js, want.iter().map(|w| w.to_string()).collect::<Vec<_>>()), json!({"kind":"&str","json":js}));
+        None
+      }
+    }
+    Ok(Err(e)) => {
+      cx.rep.violation(&format!("{}-json-form", what), &format!("[&str] to_json failed: {}", e), json!({"kind":"&str"}));
+      None
+    }
+    Err(p) => {
+      cx.rep.violation(&format!("{}-json-panic@{}", what, p.file_only()), &format!("to_json panicked: {}", p.msg), json!({"kind":"&str"}));
+      None
+    }
+  }
+}
+
+fn borrowed_items(cx: &mut Ctx, universe: &[&'static str], max_len: usize) {
+  let owned: Vec<String> = universe.iter().map(|s| s.to_string()).collect();
+  let args = cx.args.clone();
+  let mut lists: Vec<Vec<usize>> = Vec::new();
+  let idx: Vec<u8> = (0..universe.len() as u8).collect();
+  for_each_list(&idx, max_len, |i, l| {
+    if args.mine(i) {
+      lists.push(l.iter().map(|x| *x as usize).collect());
+    }
+  });
+  for li in &lists {
+    cx.rep.eval();
+    cx.rep.inc("borrowed_list_cases");
+    let l: Vec<&'static str> = li.iter().map(|i| universe[*i]).collect();
+    let lo: Vec<String> = li.iter().map(|i| owned[*i].clone()).collect();
+    let uniq = keys_unique(&lo);
+    cx.rep.distinct("nontrivial", &format!("borrowed|len{}|uniq{}", l.len(), uniq));
+    let arr = json!(l);
+    let bare: Vec<Value> = if l.len() == 1 { vec![json!(l[0])] } else { vec![arr.clone()] };
+    let either: Vec<Value> = if l.len() == 1 { vec![json!(l[0]), arr.clone()] } else { vec![arr.clone()] };
+    // OneOrMany (duplicates and emptiness allowed)
+    if let Ok(v) = catch(|| <OneOrMany<&'static str> as From<Vec<&'static str>>>::from(l.clone())) {
+      if let Some(js) = own_text(cx, "oneormany", &v, &bare) {
+        borrowed_back(cx, "oneormany", "from_vec", &v, &js);
+      }
+    }
+    if let Ok(v) = catch(|| OneOrMany::Many(l.clone())) {
+      if let Some(js) = own_text(cx, "oneormany", &v, &either) {
+        borrowed_back(cx, "oneormany", "variant_many", &v, &js);
+      }
+    }
+    if !uniq {
+      continue;
+    }
+    // OrderedSet
+    if let Ok(Ok(v)) = catch(|| OrderedSet::try_from(l.clone())) {
+      if let Some(js) = own_text(cx, "oset", &v, &[arr.clone()]) {
+        borrowed_back(cx, "oset", "try_from", &v, &js);
+      }
+    }
+    // OneOrSet (non-empty)
+    if l.is_empty() {
+      continue;
+    }
+    if let Ok(Ok(v)) = catch(|| OneOrSet::try_from(l.clone())) {
+      if let Some(js) = own_text(cx, "oneorset", &v, &bare) {
+        borrowed_back(cx, "oneorset", "try_from_vec", &v, &js);
+      }
+    }
+    if l.len() == 1 {
+      if let Ok(v) = catch(|| OneOrSet::new_one(l[0])) {
+        if let Some(js) = own_text(cx, "oneorset", &v, &bare) {
+          borrowed_back(cx, "oneorset", "new_one", &v, &js);
+        }
+      }
+    }
+    // grown by an operation
+    let extra = universe[universe.len() - 1];
+    if let Ok(Ok((v, grown))) = catch(|| {
+      OneOrSet::try_from(l.clone()).map(|mut v| {
+        let g = v.append(extra);
+        (v, g)
+      })
+    }) {
+      let mut want = l.clone();
+      if grown {
+        want.push(extra);
+      }
+      let form: Vec<Value> = if want.len() == 1 { vec![json!(want[0])] } else { vec![json!(want)] };
+      if let Some(js) = own_text(cx, "oneorset", &v, &form) {
+        borrowed_back(cx, "oneorset", "append", &v, &js);
+      }
+    }
+  }
+}
+
 fn proj_universe(nkeys: u8, npay: u8) -> (Vec<P>, Vec<u8>) {
   let mut e = Vec::new();
   for k in 1..=nkeys {
     for v in 0..npay {
       e.push(P { k, v });
+    }
+  }
+  (e, (1..=nkeys).collect())
+}
+
+fn tup_universe(nkeys: u8, npay: u8) -> (Vec<Tup>, Vec<u8>) {
+  let mut e = Vec::new();
+  for k in 1..=nkeys {
+    for v in 0..npay {
+      e.push(Tup(k, v));
     }
   }
   (e, (1..=nkeys).collect())
@@ -1748,7 +1994,9 @@ fn main() {
      operation with full accessor + JSON observation; (3) seeded random sequences of length 60/180 from states built through every \
      construction path (u8, struct, String); (4) every list of length 0..=4(5) over a small universe offered to TryFrom<Vec>, \
      FromIterator (several size hints) and serde, for OrderedSet, OneOrSet (plus append chains, map/try_map) and OneOrMany (plus push \
-     chains); (5) malformed/odd JSON. Each step is judged against a duplicate-free Vec model (result flag + full order). \
+     chains), the element kinds including ones whose own JSON is an array (tuple struct), null-or-number (Option newtype) or \
+     string-or-object (enum); every accepted own JSON is also read back through from_json_value / from_json_slice / a reader / the \
+     pretty-printed text; (5) malformed/odd JSON; (6) collections of &str read back zero-copy from their own JSON. Each step is judged against a duplicate-free Vec model (result flag + full order). \
      distinct_exact = exhaustive sequences (distinct by construction); nontrivial classes = (phase, element kind, operation, which \
      operand keys are present, length before) resp. (kind, list length, keys unique?, de-duplicated length)",
   );
@@ -1788,6 +2036,14 @@ fn main() {
   }
   let strs: Vec<String> = ["", "a", "b", "ab", "A", "\u{e9}", "a ", "b\u{0}"].iter().map(|s| s.to_string()).collect();
   closure(&mut cx, "string3", &strs[..3], &strs[..3]);
+  // element types whose own JSON form is an array / null / varies with the value
+  let (t32, t32k) = tup_universe(3, 2);
+  let n3: Vec<Nul> = vec![Nul(None), Nul(Some(0)), Nul(Some(1))];
+  let n3k: Vec<Option<u8>> = n3.iter().map(|n| n.0).collect();
+  let e4: Vec<En> = vec![En::A, En::B(1), En::B(2), En::C(1, 2)];
+  closure(&mut cx, "tuple3x2", &t32, &t32k);
+  closure(&mut cx, "nullable3", &n3, &n3k);
+  closure(&mut cx, "enum3", &e4[..3], &e4[..3]);
 
   // ---- (3) random sequences
   let mut rng = args.rng(19);
@@ -1811,11 +2067,27 @@ fn main() {
   oom_lists(&mut cx, &a3, 4, 2);
   oom_lists(&mut cx, &b3x2, 4, if thorough { 2 } else { 1 });
   oom_lists(&mut cx, &s3, 4, 2);
+  let sl = if scale >= 1000 { 3 } else { 2 };
+  oset_lists(&mut cx, &t32, sl);
+  oset_lists(&mut cx, &n3, sl);
+  oset_lists(&mut cx, &e4, sl);
+  oos_lists(&mut cx, &t32, sl, 2);
+  oos_lists(&mut cx, &n3, sl, 2);
+  oos_lists(&mut cx, &e4, sl, 2);
+  oom_lists(&mut cx, &t32, sl, 1);
+  oom_lists(&mut cx, &n3, sl, 2);
+  oom_lists(&mut cx, &e4, sl, 1);
 
   // ---- (5) odd JSON
   hostile_json(&mut cx, &a3);
   hostile_json(&mut cx, &b3x2);
   hostile_json(&mut cx, &s3);
+  hostile_json(&mut cx, &t32);
+  hostile_json(&mut cx, &n3);
+  hostile_json(&mut cx, &e4);
+
+  // ---- (6) items borrowing from the input
+  borrowed_items(&mut cx, &["", "a", "b", "ab", "\u{e9} z"], if scale >= 1000 { 3 } else { 2 });
 
   // the same loose-upper-bound situation with a std-only iterator (upper bound usize::MAX, three items)
   if args.shard == 0 {
